@@ -193,7 +193,7 @@ out :
 int main (int argc, char **argv)
 {	int f, c, mode, up ;
 	vh_init (argc, argv, BIG_C06 ? "c06_big_files" : BIG_C11 ? "c11_big_files" : "c04_big_files", BIG_PROP) ;
-	vh_case_secs = 600 ;
+	vh_case_secs = 600 ; vh_case_cpu_secs = 150 ;		/* a big-file case needs seconds of CPU; a parser that spins on one of its images must end the case, not the disk */
 	vh_enum_formats () ;
 	zbuf = calloc (1, ZBUF_BYTES) ;
 	for (f = 0 ; f < vh_nfmts ; f++) for (c = 1 ; c <= 2 ; c++)
